@@ -2,6 +2,7 @@ import PsiModel.Epochs
 import PsiProofs.Helper.C18_Epochs
 import PsiProofs.Helper.C18_Runs
 import PsiProofs.Helper.C18_Debounce
+import PsiProofs.Helper.C18_Smooth
 /-! C18 — property theorems for the boolean-epoch utilities. -/
 namespace Psi.Epochs
 
@@ -88,6 +89,20 @@ example : IsMaximalRun [false, true, true, false] 1 3 := by
   intro i h1 h2
   have : i = 1 ∨ i = 2 := by omega
   rcases this with h | h <;> subst h <;> rfl
+
+/-! ### smooth_epochs -/
+
+/-- `util.smooth_epochs` (sort each column independently, sweep with `ub := next.ub`) returns the
+sorted disjoint cover (pair-sort, join when overlapping or touching, keep the maximum end) of every
+list of intervals with `lb ≤ ub` — no hypothesis on order, overlap or nesting. -/
+theorem smooth_eq_cover : ∀ I : List (Int × Int),
+    (∀ p ∈ I, p.1 ≤ p.2) → smoothEpochs I = sortedDisjointCover I :=
+  smooth_eq_cover_aux
+
+-- nested and unordered intervals: the column sort pairs (1,4),(2,3),(6,7) as (1,3),(2,4),(6,7)
+example : (∀ p ∈ [((6 : Int), (7 : Int)), (2, 3), (1, 4)], p.1 ≤ p.2) ∧
+    smoothEpochs [(6, 7), (2, 3), (1, 4)] = [(1, 4), (6, 7)] := by
+  refine ⟨by decide, by decide⟩
 
 /-! ### debounce_epochs -/
 
